@@ -325,17 +325,21 @@ def _real_test(
     for i in range(A_im.shape[1]):
         A_im[:, i] /= abs_X_exp
 
-    # Update the circuit and calculate the impedance or admittance
-    _update_circuit(
-        circuit=circuit,
-        variables=variables,
-        add_capacitance=add_capacitance,
-        admittance=admittance,
-    )
-    X_fit: NDArray[complex128] = circuit.get_impedances(f) ** (-1 if admittance else 1)
+    # Calculate the (scaled) imaginary part of the impedance or admittance
+    # of the intermediate fit. This is done using the design matrix rather
+    # than the circuit since a circuit cannot represent the nullified
+    # inductance (or capacitance) without a placeholder value (e.g., 1e18 H)
+    # that contributes whenever the data is expressed in unusual units.
+    X_fit_im: NDArray[float64] = _generate_A_matrices(
+        w,
+        taus,
+        add_capacitance,
+        admittance,
+        abs_X_exp,
+    )[1].dot(variables)
 
     # Extract the corrected series/parallel inductance (and capacitance)
-    coefs: NDArray[float64] = _pinv(A_im).dot((X_exp.imag - X_fit.imag) / abs_X_exp)
+    coefs: NDArray[float64] = _pinv(A_im).dot(X_exp.imag / abs_X_exp - X_fit_im)
     if add_capacitance:
         variables[-2:] = coefs
     else:
